@@ -350,3 +350,351 @@ Proof.
   - intros t k nv H. apply apply_inv; auto.
   - intros t y H. apply occurs_apply in H. tauto.
 Qed.
+
+(* ---------- equivalence and implication ---------- *)
+(* every assignment of the inner variables is induced by some assignment of the names *)
+Definition env_of_inner (inputs : list name) (p : nat -> bool) : env :=
+  fun x => match index_of x inputs with Some i => p i | None => false end.
+
+Lemma ienv_env_of_inner inputs p i : sset inputs -> i < length inputs -> ienv inputs (env_of_inner inputs p) i = p i.
+Proof.
+  intros Hs Hi. unfold ienv, env_of_inner. destruct (nth_error inputs i) as [x|] eqn:Ex.
+  - rewrite (index_of_NoDup _ (sset_NoDup _ Hs) i x Ex). reflexivity.
+  - apply nth_error_None in Ex. lia.
+Qed.
+
+Lemma eval_env_of_inner b p : wf_bdd b -> bsem b (env_of_inner (b_inputs b) p) = dd_eval (b_root b) p.
+Proof.
+  intros (Hs & Hnv & Hinv). unfold bsem. apply eval_agree. intros i Hi.
+  fold (ienv (b_inputs b) (env_of_inner (b_inputs b) p) i). apply ienv_env_of_inner; auto.
+  rewrite <- Hnv. apply (occurs_bounds i 0 (b_nv b) (b_root b)); auto.
+Qed.
+
+Lemma is_true_dd_spec t : is_true_dd t = true <-> t = Leaf true.
+Proof. destruct t as [[|]|]; simpl; split; congruence. Qed.
+
+Lemma extend_pair dbg a b : wf_bdd a -> wf_bdd b ->
+  let common := common_inputs (b_inputs a) (b_inputs b) in
+  exists a' b', extend dbg a common = Ok a' /\ extend dbg b common = Ok b' /\
+                wf_bdd a' /\ wf_bdd b' /\ b_inputs a' = common /\ b_inputs b' = common /\
+                (forall v, bsem a' v = bsem a v) /\ (forall v, bsem b' v = bsem b v).
+Proof.
+  intros Ha Hb common. unfold common, common_inputs. fold (set_union (b_inputs a) (b_inputs b)).
+  destruct (extend_ok dbg a _ Ha (set_union_sset (b_inputs a) (b_inputs b))) as (a' & Ea & Wa & Ia & Sa & _).
+  { intros x Hx. apply set_union_In. auto. }
+  destruct (extend_ok dbg b _ Hb (set_union_sset (b_inputs a) (b_inputs b))) as (b' & Eb & Wb & Ib & Sb & _).
+  { intros x Hx. apply set_union_In. auto. }
+  exists a', b'. repeat split; auto; try apply Wa; try apply Wb.
+Qed.
+
+Theorem b_equiv_spec dbg a b : wf_bdd a -> wf_bdd b ->
+  exists r, b_equiv dbg a b = Ok r /\ (r = true <-> forall v, bsem a v = bsem b v).
+Proof.
+  intros Ha Hb. unfold b_equiv.
+  destruct (extend_pair dbg a b Ha Hb) as (a' & b' & -> & -> & Wa & Wb & Ia & Ib & Sa & Sb).
+  cbn [bind]. eexists. split; [reflexivity|].
+  pose proof Wa as (_ & Na & Inva). pose proof Wb as (_ & Nb & Invb).
+  assert (Env : b_nv a' = b_nv b') by (rewrite Na, Nb, Ia, Ib; reflexivity).
+  assert (Hiff : inv 0 (b_nv a') (dd_iff (b_root a') (b_root b'))).
+  { apply apply_inv; auto. rewrite Env. auto. }
+  rewrite is_true_dd_spec. split.
+  - intros Ht v. rewrite <- Sa, <- Sb. unfold bsem. rewrite Ia, Ib.
+    set (p := ienv (common_inputs (b_inputs a) (b_inputs b)) v).
+    assert (dd_eval (dd_iff (b_root a') (b_root b')) p = true) by (rewrite Ht; reflexivity).
+    unfold dd_iff in H. rewrite (apply_sem Bool.eqb _ _ 0) in H; [|apply Inva|apply Invb].
+    apply eqb_prop. exact H.
+  - intros Hall. apply (tautology_is_leaf _ 0); [apply Hiff|apply Hiff|].
+    intros p. unfold dd_iff. rewrite (apply_sem Bool.eqb _ _ 0); [|apply Inva|apply Invb].
+    rewrite <- (eval_env_of_inner a' p Wa). rewrite <- (eval_env_of_inner b' (p) Wb).
+    rewrite Ia, Ib, Sa, Sb, Hall. apply eqb_reflx.
+Qed.
+
+Theorem b_implied_by_spec dbg a b : wf_bdd a -> wf_bdd b ->
+  exists r, b_implied_by dbg a b = Ok r /\ (r = true <-> forall v, bsem b v = true -> bsem a v = true).
+Proof.
+  intros Ha Hb. unfold b_implied_by.
+  destruct (extend_pair dbg a b Ha Hb) as (a' & b' & -> & -> & Wa & Wb & Ia & Ib & Sa & Sb).
+  cbn [bind]. eexists. split; [reflexivity|].
+  pose proof Wa as (_ & Na & Inva). pose proof Wb as (_ & Nb & Invb).
+  assert (Env : b_nv b' = b_nv a') by (rewrite Na, Nb, Ia, Ib; reflexivity).
+  assert (Himp : inv 0 (b_nv b') (dd_imp (b_root b') (b_root a'))).
+  { apply apply_inv; auto. rewrite Env. auto. }
+  rewrite is_true_dd_spec. split.
+  - intros Ht v. rewrite <- Sa, <- Sb. unfold bsem. rewrite Ia, Ib.
+    set (p := ienv (common_inputs (b_inputs a) (b_inputs b)) v).
+    assert (dd_eval (dd_imp (b_root b') (b_root a')) p = true) by (rewrite Ht; reflexivity).
+    unfold dd_imp in H. rewrite (apply_sem implb _ _ 0) in H; [|apply Invb|apply Inva].
+    intros Hbv. unfold p, ienv in H. rewrite Hbv in H. exact H.
+  - intros Hall. apply (tautology_is_leaf _ 0); [apply Himp|apply Himp|].
+    intros p. unfold dd_imp. rewrite (apply_sem implb _ _ 0); [|apply Invb|apply Inva].
+    rewrite <- (eval_env_of_inner a' p Wa). rewrite <- (eval_env_of_inner b' p Wb).
+    rewrite Ia, Ib, Sa, Sb.
+    destruct (bsem b _) eqn:Eb; [|reflexivity]. simpl. apply Hall. exact Eb.
+Qed.
+
+(* ---------- essential inputs ---------- *)
+Theorem b_essential_spec b : wf_bdd b ->
+  exists ess, b_essential b = Ok ess /\ sset ess /\
+    forall x, In x ess <-> In x (b_inputs b) /\ exists v, bsem b (upd v x false) <> bsem b (upd v x true).
+Proof.
+  intros Hwf. pose proof Hwf as (Hs & Hnv & Ho & Hr & Hb).
+  destruct (b_essential_ok b Hwf) as (ess & He & Hss & Hin). exists ess. split; [exact He|]. split; [exact Hss|].
+  intros x. rewrite Hin. split.
+  - intros (i & Hi & Ex). split; [eapply nth_error_In; eauto|].
+    destruct (occurs_depends i (b_root b) 0 Ho Hr Hi) as (p & Hp).
+    exists (env_of_inner (b_inputs b) p). unfold bsem.
+    pose proof (index_of_NoDup _ (sset_NoDup _ Hs) i x Ex) as Hix.
+    intros E. apply Hp.
+    rewrite (eval_agree _ (updn p i false) (ienv (b_inputs b) (upd (env_of_inner (b_inputs b) p) x false))).
+    rewrite (eval_agree _ (updn p i true) (ienv (b_inputs b) (upd (env_of_inner (b_inputs b) p) x true))).
+    + exact E.
+    + intros j Hj. rewrite (ienv_upd_some _ Hs _ x true i Hix). unfold updn. destruct (Nat.eqb j i); [reflexivity|].
+      symmetry. apply ienv_env_of_inner; auto. rewrite <- Hnv. apply (occurs_bounds j 0 (b_nv b) (b_root b)); [repeat split; auto|auto].
+    + intros j Hj. rewrite (ienv_upd_some _ Hs _ x false i Hix). unfold updn. destruct (Nat.eqb j i); [reflexivity|].
+      symmetry. apply ienv_env_of_inner; auto. rewrite <- Hnv. apply (occurs_bounds j 0 (b_nv b) (b_root b)); [repeat split; auto|auto].
+  - intros (Hx & v & Hv). destruct (index_of_In x _ Hx) as (i & Hi). exists i. split; [|apply index_of_nth; auto].
+    apply dd_support_In. apply (support_iff_depends i (b_root b) 0 Ho Hr).
+    exists (ienv (b_inputs b) v). intros E. apply Hv. unfold bsem.
+    rewrite (eval_ext _ _ _ (ienv_upd_some _ Hs v x false i Hi)).
+    rewrite (eval_ext _ _ _ (ienv_upd_some _ Hs v x true i Hi)). exact E.
+Qed.
+
+(* ---------- substitution ---------- *)
+Lemma occurs_not y t : occurs y (dd_not t) <-> occurs y t.
+Proof. induction t as [c|v lo IHlo hi IHhi]; simpl; [tauto|]. rewrite IHlo, IHhi. tauto. Qed.
+
+Lemma ite_inv nv g a b : inv 0 nv g -> inv 0 nv a -> inv 0 nv b -> inv 0 nv (dd_ite g a b).
+Proof. intros Hg Ha Hb. unfold dd_ite, dd_or, dd_and. repeat apply apply_inv; auto. apply dd_not_inv. auto. Qed.
+
+Lemma ite_sem nv g a b p : inv 0 nv g -> inv 0 nv a -> inv 0 nv b ->
+  dd_eval (dd_ite g a b) p = if dd_eval g p then dd_eval a p else dd_eval b p.
+Proof.
+  intros Hg Ha Hb. unfold dd_ite, dd_or, dd_and.
+  assert (Hn : inv 0 nv (dd_not g)) by (apply dd_not_inv; auto).
+  assert (H1 : inv 0 nv (dd_apply andb g a)) by (apply apply_inv; auto).
+  assert (H2 : inv 0 nv (dd_apply andb (dd_not g) b)) by (apply apply_inv; auto).
+  rewrite (apply_sem orb _ _ 0); [|apply H1|apply H2].
+  rewrite (apply_sem andb g a 0); [|apply Hg|apply Ha].
+  rewrite (apply_sem andb (dd_not g) b 0); [|apply Hn|apply Hb].
+  rewrite dd_not_sem. destruct (dd_eval g p), (dd_eval a p), (dd_eval b p); reflexivity.
+Qed.
+
+Lemma occurs_ite y g a b : occurs y (dd_ite g a b) -> occurs y g \/ occurs y a \/ occurs y b.
+Proof.
+  unfold dd_ite, dd_or, dd_and. intros H. apply occurs_apply in H. destruct H as [H|H]; apply occurs_apply in H.
+  - tauto.
+  - rewrite occurs_not in H. tauto.
+Qed.
+
+Fixpoint item_get (items : list (nat * dd)) (i : nat) : option dd :=
+  match items with [] => None | (x, g) :: r => if Nat.eqb x i then Some g else item_get r i end.
+
+Definition subst_p (items : list (nat * dd)) (p : nat -> bool) : nat -> bool :=
+  fun i => match item_get items i with Some g => dd_eval g p | None => p i end.
+
+Lemma existsb_support x t : existsb (Nat.eqb x) (dd_support t) = true <-> occurs x t.
+Proof.
+  rewrite existsb_exists, <- dd_support_In. split.
+  - intros (y & Hy & E). apply Nat.eqb_eq in E. subst. exact Hy.
+  - intros H. exists x. split; auto. apply Nat.eqb_refl.
+Qed.
+
+Lemma subst_all_inv nv items : Forall (fun xg => inv 0 nv (snd xg)) items -> forall t, inv 0 nv t -> inv 0 nv (dd_subst_all items t).
+Proof.
+  induction 1 as [|[x g] r Hg _ IH]; intros t Ht; simpl; [exact Ht|].
+  destruct (existsb (Nat.eqb x) (dd_support t)); simpl; [|apply IH; auto].
+  apply ite_inv; auto; apply IH; apply restrict1_inv; auto.
+Qed.
+
+Lemma subst_all_sem nv items p : Forall (fun xg => inv 0 nv (snd xg)) items ->
+  forall t, inv 0 nv t -> dd_eval (dd_subst_all items t) p = dd_eval t (subst_p items p).
+Proof.
+  induction 1 as [|[x g] r Hg Hr IH]; intros t Ht; simpl.
+  - apply eval_ext. intros i. reflexivity.
+  - simpl in Hg. destruct (existsb (Nat.eqb x) (dd_support t)) eqn:Ex; simpl.
+    + rewrite (ite_sem nv); auto; try (apply subst_all_inv; auto; apply restrict1_inv; auto).
+      rewrite !IH by (apply restrict1_inv; auto).
+      rewrite !(restrict1_sem _ _ _ 0) by apply Ht.
+      destruct (dd_eval g p) eqn:Eg; apply eval_ext; intros i; unfold updn, subst_p; cbn [item_get];
+        rewrite (Nat.eqb_sym i x); destruct (Nat.eqb x i); auto.
+    + rewrite IH by auto. apply eval_agree. intros i Hi. unfold subst_p. cbn [item_get].
+      destruct (Nat.eqb_spec x i); [|reflexivity]. subst i.
+      apply existsb_support in Hi. congruence.
+Qed.
+
+Lemma subst_all_occurs nv y items : Forall (fun xg => inv 0 nv (snd xg)) items ->
+  forall t, inv 0 nv t -> occurs y (dd_subst_all items t) ->
+  (occurs y t /\ item_get items y = None) \/ exists xg, In xg items /\ occurs y (snd xg).
+Proof.
+  induction 1 as [|[x g] r Hg Hr IH]; intros t Ht H; simpl in H; [left; auto|].
+  destruct (existsb (Nat.eqb x) (dd_support t)) eqn:Ex; simpl in H.
+  - apply occurs_ite in H. destruct H as [H|[H|H]].
+    + right. exists (x, g). simpl. auto.
+    + apply IH in H; [|apply restrict1_inv; auto].
+      destruct H as [[H Hn]|(xg & Hin & Ho)]; [|right; exists xg; simpl; auto].
+      left. split; [eapply occurs_restrict1; eauto|]. cbn [item_get].
+      destruct (Nat.eqb_spec x y); [|exact Hn]. subst y. exfalso.
+      destruct Ht as (Hord & _). eapply restrict1_not_occurs; eauto.
+    + apply IH in H; [|apply restrict1_inv; auto].
+      destruct H as [[H Hn]|(xg & Hin & Ho)]; [|right; exists xg; simpl; auto].
+      left. split; [eapply occurs_restrict1; eauto|]. cbn [item_get].
+      destruct (Nat.eqb_spec x y); [|exact Hn]. subst y. exfalso.
+      destruct Ht as (Hord & _). eapply restrict1_not_occurs; eauto.
+  - apply IH in H; auto. destruct H as [[H Hn]|(xg & Hin & Ho)]; [|right; exists xg; simpl; auto].
+    left. split; auto. cbn [item_get]. destruct (Nat.eqb_spec x y); [|exact Hn]. subst y.
+    exfalso. assert (existsb (Nat.eqb x) (dd_support t) = true) by (apply existsb_support; auto). congruence.
+Qed.
+
+Lemma Forall2_in_r {A B} (R : A -> B -> Prop) l l' (y : B) : Forall2 R l l' -> In y l' -> exists x, In x l /\ R x y.
+Proof.
+  induction 1 as [|a b l l' HR _ IH]; intros Hin; [destruct Hin|].
+  destruct Hin as [<-|Hin]; [exists a; simpl; auto|]. destruct (IH Hin) as (x & Hx & HRx). exists x. simpl. auto.
+Qed.
+
+Definition ext_rel (common : list name) (kg kg' : name * bdd) : Prop :=
+  fst kg = fst kg' /\ wf_bdd (snd kg') /\ b_inputs (snd kg') = common /\
+  (forall v, bsem (snd kg') v = bsem (snd kg) v) /\
+  (forall y, occurs y (b_root (snd kg')) -> exists x, nth_error common y = Some x /\ In x (b_inputs (snd kg))).
+
+Lemma extend_all_ok dbg common : sset common -> forall m,
+  (forall k g, In (k, g) m -> wf_bdd g /\ incl (b_inputs g) common) ->
+  exists m2, extend_all dbg m common = Ok m2 /\ Forall2 (ext_rel common) m m2.
+Proof.
+  intros Hc. induction m as [|[k g] r IH]; intros H; simpl.
+  - exists []. split; [reflexivity|constructor].
+  - destruct (H k g (or_introl eq_refl)) as [Wg Ig].
+    destruct (extend_ok dbg g common Wg Hc Ig) as (g' & -> & Wg' & Ig' & Sg' & Pg'). cbn [bind].
+    destruct IH as (r2 & -> & HF); [intros k' g0 Hin; apply (H k' g0); right; auto|]. cbn [bind].
+    exists ((k, g') :: r2). split; [reflexivity|]. constructor; [|exact HF].
+    unfold ext_rel. simpl. auto.
+Qed.
+
+Lemma get_Forall2 common m m2 x : Forall2 (ext_rel common) m m2 ->
+  match get m x, get m2 x with
+  | Some g, Some g' => ext_rel common (x, g) (x, g')
+  | None, None => True
+  | _, _ => False
+  end.
+Proof.
+  induction 1 as [|[k g] [k' g'] r r2 HR _ IH]; simpl; [exact I|].
+  destruct HR as (Ek & HR). simpl in Ek. subst k'.
+  destruct (name_eqb x k); [|exact IH]. unfold ext_rel. simpl. auto.
+Qed.
+
+Definition items_of (common : list name) (m2 : list (name * bdd)) : list (nat * dd) :=
+  flat_map (fun kv => match index_of (fst kv) common with Some i => [(i, b_root (snd kv))] | None => [] end) m2.
+
+Lemma item_get_items common m2 x i : sset common -> (forall kv, In kv m2 -> In (fst kv) common) ->
+  index_of x common = Some i -> item_get (items_of common m2) i = option_map b_root (get m2 x).
+Proof.
+  intros Hc. induction m2 as [|[k g] r IH]; intros Hk Hi; simpl; [reflexivity|].
+  destruct (index_of_In k common (Hk (k, g) (or_introl eq_refl))) as (j & Ej). rewrite Ej. cbn [app item_get].
+  destruct (Nat.eqb_spec j i) as [->|N].
+  - assert (k = x) by (apply index_of_nth in Ej, Hi; congruence). subst k. rewrite name_eqb_refl. reflexivity.
+  - destruct (name_eqb_spec x k) as [->|]; [congruence|]. apply IH; auto. intros kv Hin. apply Hk. right. auto.
+Qed.
+
+Lemma get_filter_key {X} (P : name -> bool) (m : list (name * X)) x : P x = true ->
+  get (filter (fun kv => P (fst kv)) m) x = get m x.
+Proof.
+  intros HP. induction m as [|[k g] r IH]; simpl; [reflexivity|].
+  destruct (name_eqb_spec x k) as [->|N].
+  - rewrite HP. simpl. rewrite name_eqb_refl. reflexivity.
+  - destruct (P k); simpl; [|exact IH]. destruct (name_eqb_spec x k); [contradiction|exact IH].
+Qed.
+
+Definition subst_env_b (m : list (name * bdd)) (v : env) : env :=
+  fun k => match get m k with Some g => bsem g v | None => v k end.
+
+Definition b_subst_inputs (b : bdd) (m : list (name * bdd)) : list name :=
+  let m1 := filter (fun kv => mem (fst kv) (b_inputs b)) m in
+  let common := set_of_list (b_inputs b ++ concat (map (fun kv => b_inputs (snd kv)) m1)) in
+  filter (fun x => negb (has m1 x) || mem x (concat (map (fun kv => b_inputs (snd kv)) m1))) common.
+
+Theorem b_substitute_refuses dbg b m :
+  (exists k g, In (k, g) m /\ In k (b_inputs g)) -> b_substitute dbg b m = Panic 30.
+Proof.
+  intros (k & g & Hin & Hk). unfold b_substitute.
+  assert (existsb (fun kv => mem (fst kv) (b_inputs (snd kv))) m = true) as ->; [|reflexivity].
+  apply existsb_exists. exists (k, g). split; auto. simpl. apply mem_In. auto.
+Qed.
+
+Theorem b_substitute_spec dbg b m : wf_bdd b ->
+  (forall k g, In (k, g) m -> wf_bdd g) ->
+  (forall k g, In (k, g) m -> ~ In k (b_inputs g)) ->
+  exists r, b_substitute dbg b m = Ok r /\ wf_bdd r /\ b_inputs r = b_subst_inputs b m /\
+            forall v, bsem r v = bsem b (subst_env_b m v).
+Proof.
+  intros Hwf Hm Hself. unfold b_substitute.
+  assert (existsb (fun kv => mem (fst kv) (b_inputs (snd kv))) m = false) as ->.
+  { destruct (existsb _ m) eqn:E; [|reflexivity]. apply existsb_exists in E. destruct E as ([k g] & Hin & Hk).
+    simpl in Hk. apply mem_In in Hk. exfalso. exact (Hself k g Hin Hk). }
+  set (m1 := filter (fun kv => mem (fst kv) (b_inputs b)) m).
+  set (mentioned := concat (map (fun kv => b_inputs (snd kv)) m1)).
+  set (common := set_of_list (b_inputs b ++ mentioned)).
+  assert (Hc : sset common) by apply set_of_list_sset.
+  assert (Hin1 : forall k g, In (k, g) m1 -> In (k, g) m /\ In k (b_inputs b)).
+  { intros k g H. apply filter_In in H. simpl in H. rewrite mem_In in H. exact H. }
+  destruct (extend_ok dbg b common Hwf Hc) as (b' & -> & Wb' & Ib' & Sb' & Pb').
+  { intros x Hx. apply set_of_list_In. apply in_or_app. auto. }
+  cbn [bind].
+  destruct (extend_all_ok dbg common Hc m1) as (m2 & -> & HF).
+  { intros k g H. destruct (Hin1 k g H) as [Hkm _]. split; [eapply Hm; eauto|].
+    intros x Hx. apply set_of_list_In. apply in_or_app. right. unfold mentioned.
+    apply In_concat_map. exists (k, g). auto. }
+  cbn [bind]. fold (items_of common m2).
+  pose proof Wb' as (_ & Nb' & Invb'). rewrite Ib' in Nb'.
+  assert (Hitems : Forall (fun xg => inv 0 (length common) (snd xg)) (items_of common m2)).
+  { apply Forall_forall. intros [i t] Hit. unfold items_of in Hit. apply in_flat_map in Hit.
+    destruct Hit as ([k g'] & Hin2 & Hi). simpl in Hi. destruct (index_of k common); [|destruct Hi].
+    destruct Hi as [[= <- <-]|[]]. simpl.
+    destruct (Forall2_in_r _ _ _ (k, g') HF Hin2) as ([k0 g0] & _ & (_ & Wg' & Ig' & _)).
+    simpl in *. destruct Wg' as (_ & Ng' & Invg'). rewrite <- Ig', <- Ng'. exact Invg'. }
+  assert (Hkeys2 : forall kv, In kv m2 -> In (fst kv) common).
+  { intros [k g'] Hin2. destruct (Forall2_in_r _ _ _ (k, g') HF Hin2) as ([k0 g0] & Hin0 & (Ek & _)).
+    simpl in *. subst k0. destruct (Hin1 k g0 Hin0) as [_ Hk]. apply set_of_list_In. apply in_or_app. auto. }
+  set (root := dd_subst_all (items_of common m2) (b_root b')).
+  assert (Hroot : inv 0 (length common) root).
+  { apply subst_all_inv; auto. rewrite <- Nb'. exact Invb'. }
+  set (b1 := {| b_inputs := common; b_nv := length common; b_root := root |}).
+  assert (W1 : wf_bdd b1) by (split; [exact Hc|split; [reflexivity|exact Hroot]]).
+  set (final := filter (fun x => negb (has m1 x) || mem x mentioned) common).
+  destruct (prune_ok dbg b1 final W1) as (r & Hr & Wr & Ir & Sr).
+  - apply filter_sset. exact Hc.
+  - intros x Hx. apply filter_In in Hx. apply Hx.
+  - intros y x Ho Hx. cbn [b1 b_root b_inputs] in *. apply filter_In. split; [eapply nth_error_In; eauto|].
+    destruct (has m1 x) eqn:Hh; [|reflexivity]. cbn [negb orb]. apply mem_In.
+    pose proof (index_of_NoDup _ (sset_NoDup _ Hc) y x Hx) as Hy.
+    destruct (subst_all_occurs (length common) y _ Hitems (b_root b')) as [[_ Hn]|([i t] & Hit & Hot)]; auto.
+    { rewrite <- Nb'. exact Invb'. }
+    + exfalso. rewrite (item_get_items common m2 x y Hc Hkeys2 Hy) in Hn.
+      pose proof (get_Forall2 common m1 m2 x HF) as Hg. unfold has in Hh.
+      destruct (get m1 x); [|discriminate]. destruct (get m2 x); [discriminate|contradiction].
+    + unfold items_of in Hit. apply in_flat_map in Hit. destruct Hit as ([k g'] & Hin2 & Hi). simpl in Hi.
+      destruct (index_of k common); [|destruct Hi]. destruct Hi as [[= <- <-]|[]]. simpl in Hot.
+      destruct (Forall2_in_r _ _ _ (k, g') HF Hin2) as ([k0 g0] & Hin0 & (_ & _ & _ & _ & Prov)).
+      simpl in Prov. destruct (Prov y Hot) as (x' & Ex' & Hx'). rewrite Hx in Ex'. injection Ex' as <-.
+      unfold mentioned. apply In_concat_map. exists (k0, g0). auto.
+  - exists r. split; [exact Hr|]. split; [exact Wr|]. split; [rewrite Ir; reflexivity|].
+    intros v. rewrite Sr. unfold bsem at 1. cbn [b1 b_root b_inputs]. fold (ienv common v). unfold root.
+    rewrite (subst_all_sem (length common)); auto; [|rewrite <- Nb'; exact Invb'].
+    transitivity (bsem b' (subst_env_b m v)).
+    + unfold bsem. rewrite Ib'. apply eval_agree. intros i Hi.
+      assert (Hil : i < length common).
+      { rewrite <- Nb'. apply (occurs_bounds i 0 _ (b_root b')); auto. }
+      destruct (nth_error common i) as [x|] eqn:Ex; [|apply nth_error_None in Ex; lia].
+      pose proof (index_of_NoDup _ (sset_NoDup _ Hc) i x Ex) as Hix.
+      unfold subst_p. rewrite (item_get_items common m2 x i Hc Hkeys2 Hix).
+      pose proof (get_Forall2 common m1 m2 x HF) as Hg.
+      fold (ienv common (subst_env_b m v) i). rewrite (ienv_nth _ _ _ _ Ex). unfold subst_env_b.
+      assert (Hxb : In x (b_inputs b)).
+      { destruct (Pb' i Hi) as (x' & Ex' & Hx'). rewrite Ex in Ex'. injection Ex' as <-. exact Hx'. }
+      assert (G : get m1 x = get m x).
+      { unfold m1. apply (get_filter_key (fun k => mem k (b_inputs b))). apply mem_In. exact Hxb. }
+      rewrite <- G.
+      destruct (get m1 x) as [g|] eqn:G1; destruct (get m2 x) as [g'|] eqn:G2; try contradiction; cbn [option_map].
+      * destruct Hg as (_ & _ & Ig' & Sg' & _). simpl in *.
+        rewrite <- Sg'. unfold bsem. rewrite Ig'. reflexivity.
+      * try (fold (ienv common v i); rewrite (ienv_nth _ _ _ _ Ex)); reflexivity.
+    + rewrite Sb'. reflexivity.
+Qed.
